@@ -137,6 +137,13 @@ func runC02(c *Ctx) {
 		}
 		var obs Term
 		os.WriteFile("inflight.txt", []byte(Render(L(S("parsedata"), S(string(data))))), 0o644)
+		// "parsing terminates promptly": an input on which the implementation does not come back ends the
+		// harness, and the check reports the in-flight input
+		wd := time.AfterFunc(40*time.Second, func() {
+			fmt.Fprintln(os.Stderr, "watchdog: the implementation did not return within 40 s on the in-flight input")
+			os.Exit(3)
+		})
+		defer wd.Stop()
 		t0 := time.Now()
 		func() {
 			defer func() {
@@ -407,6 +414,10 @@ func runC02(c *Ctx) {
 		"--- contentionz 1 ---\n", "--- contentionz 1 ---\ncycles/second = 0\n1 2 @ 0x400100\n", "--- contentionz 1 ---\nsampling period = 0\n0 0 @\n", "--- contentionz 1 ---\ncycles/second = 1000\n5 1 @\n5 1 @ 0x400100\n",
 		"--- heapz 1 ---\n", "--- heapz 1 ---\nformat = java\nresolution = bytes\n", "--- heapz 1 ---\nformat = java\nresolution = bytes\n 10 0 @ 0x2b\n\n 0x2b f (F.java:1)\n", "--- heapz 1 ---\nformat = java\nresolution = bytes\n 1000 7 @\n",
 		"--- contentionz 1 ---\nformat = java\nresolution = microseconds\nsampling period = 100\nms since reset = 6\n 1 0 @ 0x2b\n 0 1 @\n\n 0x2b f (F.java:1)\n",
+		"--- heapz 1 ---\n\nformat = java\nresolution = bytes\n 10 1 @ 0x2b\n\n 0x2b f (F.java:1)\n", "--- heapz 1 ---\nformat = java\n\nresolution = bytes\n 10 1 @ 0x2b\n\n 0x2b f (F.java:1)\n",
+		"--- heapz 1 ---\nformat = java\n   \t\nresolution = bytes\n 10 1 @ 0x2b\n", "--- contentionz 1 ---\nformat = java\n\nresolution = microseconds\nsampling period = 100\n 1 1 @ 0x2b\n\n 0x2b f (F.java:1)\n",
+		"--- heapz 1 ---\nformat = java\nresolution = bytes\nnonsense\n= x\nkey =\n 10 1 @ 0x2b\n", "--- contentionz 1 ---\n\ncycles/second = 1000\n\n1 2 @ 0x400100\n", "--- threadz 1 ---\n\n\n--- Thread 7f (name: a/1) stack: ---\n\n  0x1 0x2\n\n",
+		"heap profile: 1: 2 [ 3: 4] @ heap_v2/524288\n\n1: 2 [ 3: 4] @ 0x400100\n\n\nMAPPED_LIBRARIES:\n\n00400000-00500000 r-xp 00000000 fd:01 1234 /bin/app\n\n",
 		"--- growthz 1 ---\n", "heap profile: 1: 2 [ 3: 4] @ growthz\n1: 2 [ 3: 4] @\n", "heap profile: 7: 7 [ 7: 7] @ fragmentationz\n7: 7 [ 7: 7] @ 0x1\n",
 	} {
 		parseCase("legacy-structure", []byte(doc), "stream:legacy-structure")
